@@ -536,13 +536,18 @@ def run_unit(unit_name, tier, seed, workdir=None):
                         del helpers[owner[len('helper::'):]]
                         rejected.add(owner[len('helper::'):])
                         added = True
+        if not added and helpers and any(t.get('kind') in ('rustc', 'tool') and not any(verify._owner(g['linemap'], ln) for ln in (t.get('lines') or [t.get('line')]) if ln) for t in pc['tool_errors']):
+            # an error that cannot be located in any function while helpers are present (e.g. a syntax error caused by one): drop them all
+            rejected.update(helpers)
+            helpers.clear()
+            added = True
         if added:
             continue
         # a helper the code now calls and the unit does not know: (1) a single-expression helper is pulled in with its body as
         # its exact contract (every unit); (2) units whose obligations do not depend on what a helper returns (interleaving
         # units) also take receiver-less helpers without a contract -- instead of giving the caller up
         for t in pc['tool_errors']:
-            mh = re.search(r'cannot find function `(\w+)` in this scope|cannot call function `(?:\w+::)*(\w+)` with mode spec|no method named `(\w+)` found|no function or associated item named `(\w+)` found', t.get('message', ''))
+            mh = re.search(r'cannot find function `(\w+)` in this scope|cannot call function `(?:\w+::)*(\w+)` with mode spec|no method named `(\w+)` found|no function or associated item named `(\w+)` found|no associated function or constant named `(\w+)` found', t.get('message', ''))
             hn = mh and next((x for x in mh.groups() if x), None)
             if hn and hn not in helpers and hn not in rejected:
                 h = gen.find_pure_helper(g['unit'], hn)
